@@ -279,7 +279,7 @@ func build(tier string) []*explore.Scenario {
 	cfgs := []hlib.ChanCfg{{0, false}, {2, true}, {4, true}}
 	if tier == "thorough" {
 		bound = 3
-		cfgs = append(cfgs, hlib.ChanCfg{1, true}, hlib.ChanCfg{2, false})
+		cfgs = append(cfgs, hlib.ChanCfg{1, true}, hlib.ChanCfg{8, true}) // (non-blocking queues drop messages with a queue-full exception: outside this property)
 	}
 	type plan struct {
 		pipe  string
